@@ -6,12 +6,21 @@ ChainParent == [r |-> "", s |-> "r", l |-> "s"]          \* three tiers
 StarParent  == [r |-> "", s |-> "r", l |-> "r"]          \* one issuer, two subjects
 TwoParent   == [r |-> "", s |-> "r", l |-> ""]           \* two roots
 
+\* which issuers the user may write into a configuration (SetIssuer); r stays a root, so no cycle can arise
+NoAlt    == [e \in Ents |-> {}]
+ChainAlt == [r |-> {}, s |-> {"r", ""}, l |-> {"s", "r"}]
+StarAlt  == [r |-> {}, s |-> {"r"}, l |-> {"r", "s"}]
+TwoAlt   == [r |-> {}, s |-> {"r"}, l |-> {"", "s"}]
+
 AllFlagSets  == SUBSET Flags
 NoAllFlagSets == SUBSET (Flags \ {"a"})
 CoreFlagSets == SUBSET {"m", "c", "o"}
 DefaultOnly  == {DefaultFlags}
+DefaultAndMissing == {DefaultFlags, {"m"}, {"c"}}
 AllEnv   == {"Edit", "Touch", "DeleteArt", "Truncate", "StripKey", "Replace", "MakeCsr"}
 WideEnv  == AllEnv \cup {"EditProfile", "Expire"}
+IssuerEnv == AllEnv \cup {"SetIssuer"}
+FullEnv  == WideEnv \cup {"SetIssuer"}
 ExpiryFlagSets == SUBSET {"m", "c", "e"}
 NoProfile == {}
 LeafProfile == {"l"}
